@@ -30,7 +30,8 @@ prop("C01",
       fam("evict","L",800,"monitor"), fam("stream","H",800,"monitor"), fam("expiry","L",800,"monitor"), fam("fine-nolimit","H",1500), fam("fine-nolimit","L",1500), fam("wide","H",600)],
      [fam("nolimit","H",40000), fam("nolimit","L",40000), fam("pool","P",20000), fam("dfs-lock2","H",200000), fam("dfs-lock3","L",200000),
       fam("dfs-cancel","H",200000), fam("evict","L",20000,"monitor"), fam("stream","H",20000,"monitor"), fam("expiry","L",20000,"monitor"), fam("mix","L",20000,"monitor"), fam("fine-nolimit","H",40000), fam("fine-nolimit","L",40000), fam("fine-mix","H",40000), fam("wide","H",20000), fam("wide","L",20000)],
-     cosim_ignore="order,stamp")
+     cosim_ignore="order,stamp",
+     smoke=True)
 prop("C02",
      ["C02_only_guard_ops_change_values", "C02_guard_op_is_local", "C02_new_guard_shows_stored_value", "C02_value_history", "C02_next_guard_sees_what_was_left", "C02_witness"],
      ["C02."],
@@ -55,7 +56,8 @@ prop("C13",
      [fam("mix","H",1200), fam("mix","L",1200), fam("nolimit","L",800), fam("evict","H",800), fam("expiry","L",800), fam("stream","H",800), fam("pool","P",600), fam("dfs-cancel","H",3000), fam("dfs-stream","L",3000), fam("fine-mix","H",1500), fam("fine-mix","L",1500), fam("fine-evict","L",1000), fam("scale-stream","L",2,"monitor"), fam("wide","H",600), fam("wide-evict","L",600), fam("fine-wide","L",600)],
      [fam("mix","H",40000), fam("mix","L",40000), fam("nolimit","L",20000), fam("evict","H",20000), fam("evict","L",20000), fam("expiry","L",20000), fam("stream","H",20000), fam("stream","L",20000), fam("pool","P",20000),
       fam("dfs-cancel","H",200000), fam("dfs-stream","L",200000), fam("dfs-evict","L",100000), fam("dfs-expiry","L",100000), fam("dfs-lock3","H",100000), fam("fine-mix","H",40000), fam("fine-mix","L",40000), fam("fine-evict","L",40000), fam("fine-evict","H",40000), fam("fine-stream","L",40000), fam("fine-expiry","L",40000), fam("scale-stream","L",16,"monitor"), fam("scale","L",8,"monitor"), fam("wide","H",20000), fam("wide","L",20000), fam("wide-evict","L",20000), fam("wide-evict","H",20000), fam("fine-wide","L",20000), fam("fine-wide-evict","H",20000)],
-     cosim_ignore="order,stamp,value")
+     cosim_ignore="order,stamp,value",
+     smoke=True)
 
 
 prop("C03",
@@ -64,7 +66,8 @@ prop("C03",
      ["C14.lost_wakeup", "C03.", "C13.hang", "C03.stream_stall"],
      [fam("evict","H",1500,"monitor"), fam("evict","L",1500,"monitor"), fam("mix","L",1000,"monitor"), fam("dfs-lock3","H",3000), fam("dfs-lock2","L",4000), fam("nolimit","H",1500), fam("nolimit","L",1500), fam("dfs-cancel","H",4000), fam("dfs-stream","L",3000), fam("stream","H",800), fam("scale-stream","L",4,"monitor"), fam("scale-stream","H",4,"monitor"), fam("fine-nolimit","H",1500), fam("wide","H",600,"monitor")],
      [fam("evict","H",40000,"monitor"), fam("evict","L",40000,"monitor"), fam("mix","L",40000,"monitor"), fam("mix","H",40000,"monitor"), fam("dfs-lock3","H",200000), fam("dfs-lock3","L",200000), fam("dfs-lock2","L",200000), fam("nolimit","H",40000), fam("nolimit","L",40000), fam("dfs-cancel","H",200000), fam("dfs-stream","L",200000), fam("stream","H",20000), fam("stream","L",20000), fam("scale-stream","L",64,"monitor"), fam("scale-stream","H",64,"monitor"), fam("fine-nolimit","H",40000), fam("fine-stream","L",40000), fam("wide","H",20000,"monitor"), fam("wide-evict","L",20000,"monitor")],
-     cosim_ignore="order,stamp,value")
+     cosim_ignore="order,stamp,value",
+     smoke=True)
 prop("C06",
      ["C06_cancel_pending_lock", "C06_cancel_stream_entry", "C06_cancel_restores_state", "C06_no_residue", "C06_witness"],
      ["C04.", "C12.", "C13.", "C06."],
@@ -92,7 +95,8 @@ prop("C10",
      ["C10_call_is_total", "C10_exact", "C10_stamp_is_unlock_time", "C10_tick", "C10_idle_entry_keeps_value_and_stamp", "C10_idle_entry_eventually_returned", "C10_witness", "C10_idle_witness", "C10_witness_max"],
      ["C10.", "C13.panic"],
      [fam("expiry","L",3000), fam("dfs-expiry","L",5000), fam("fine-expiry","L",2000), fam("wide","L",600)],
-     [fam("expiry","L",100000), fam("dfs-expiry","L",300000), fam("mix","L",40000), fam("fine-expiry","L",60000), fam("wide","L",30000)])
+     [fam("expiry","L",100000), fam("dfs-expiry","L",300000), fam("mix","L",40000), fam("fine-expiry","L",60000), fam("wide","L",30000)],
+     smoke=True)
 prop("C11",
      ["C11_snapshot", "C11_stream_step", "C11_never_yields_valueless", "C11_end_iff_done", "C11_first_poll_enabled", "C11_handed_poll_enabled", "C11_valueless_guard_is_dropped", "C11_exactly_once", "C11_complete_at_end", "C11_witness", "C11_trace_witness"],
      ["C11.", "C03.stream_stall"],
@@ -103,7 +107,8 @@ prop("C14",
       "C14_no_values_without_guard_ops", "C14_empty_when_idle", "C14_witness"],
      ["C01.", "C04.", "C12.", "C13.", "C14.", "C05."],
      [fam("pool","P",5000), fam("fine-pool","P",2000)],
-     [fam("pool","P",150000), fam("fine-pool","P",60000), fam("scale","P",8,"monitor")])
+     [fam("pool","P",150000), fam("fine-pool","P",60000), fam("scale","P",8,"monitor")],
+     smoke=True)
 prop("C15",
      ["C15_callback_panic_like_error", "C15_panic_reaches_caller", "C15_closure_panic", "C15_values_are_those_committed", "C15_still_consistent", "C15_witness"],
      ["C02.", "C04.", "C12.", "C13.", "C15.", "C08."],
